@@ -169,6 +169,10 @@ func (p *pparser) primary() *pnode {
 			return &pnode{kind: "const", name: id}
 		}
 	}
+	if p.peek() != '(' && strings.Contains(id, ".") {
+		// a dotted name that is not called: a package-level variable
+		return &pnode{kind: "global", name: id}
+	}
 	p.expect('(')
 	n := &pnode{kind: "call", name: id}
 	if id == "len" || id == "err" {
@@ -287,6 +291,8 @@ func matchTerm(n *pnode, t *Term, b Bind) bool {
 		return t.Op == "const" && t.Name == n.name
 	case "result":
 		return t.Op == "result" && t.Idx == n.idx
+	case "global":
+		return t.Op == "global" && (t.Name == n.name || strings.HasSuffix(t.Name, "."+n.name) || strings.HasSuffix(t.Name, "/"+n.name))
 	case "len":
 		return t.Op == "len" && matchTerm(n.args[0], t.Args[0], b)
 	case "err":
